@@ -26,6 +26,16 @@ CHECKS = {
             "1-3 handlers with tape-chosen scripts (ok, error at k-th call, panic at k-th call, slow in virtual time) on seeded stores and deletable ranges; oracle from the recorded handler calls, the datastore write log (ordering of handler calls vs the first datastore delete of that height) and API probes: every removed header had every handler called exactly once while still readable by height and hash, all nil; a failing/panicking handler keeps its header, yields an error (never a crash), leaves headers above it untouched on the tail side and is called again on retry; handlers are never called outside the range.",
             "Trusts SimDisk's write log ordering and the reference model.",
             "DESIGN.md §6 C14"),
+    "C12": ("exploration",
+            "deterministic simulation: seeded schedules (cooperative scheduler at SimDisk ops and verif-tagged hooks in GetByHeight/heightSub/flush) of readers, writers and cancellers; lost-wake-up detection at quiescence in virtual time",
+            "1-3 readers (future, stored and pruned heights), 1-2 writers (contiguous, gapped, out-of-order runs) and context cancellers run as tasks whose interleaving at every simulated disk operation and at the hook points inside GetByHeight, heightSub.Wait/SetHeight and the flush closure is decided by the seeded tape (PCT-style bias towards few preemptions). Oracle over the history: a reader still blocked at quiescence although its header was appended and synced is a lost wake-up; returned headers must be the appended ones; ErrNotFound only once Height reached the height, without virtual time passing; cancellation releases at once.",
+            "Interleavings are explored at park points only; code between them runs on the Go scheduler at GOMAXPROCS=1. Determinism self-test: evidence/selftest-determinism.json.",
+            "DESIGN.md §6 C12"),
+    "C17": ("exploration",
+            "deterministic simulation: seeded schedules of 2-4 writers, 1-3 readers and one tail-side deleter over the real Store (hooks + SimDisk park points), invariants per observation and final-state refinement against the sequential model",
+            "Writers append overlapping/gapped runs followed by Sync, readers loop over Head/Height/GetByHeight/Get, optionally one tail-side DeleteRange races with the appends; the tape decides every interleaving at disk operations and store hooks. Invariants per observation: Head().Height() and Height() never decrease, the observed head is retrievable by height and hash, a header whose Append+Sync completed is readable; at the end the Store equals the order-insensitive sequential model (gap-free chain, model tail after the racing delete).",
+            "The race detector is not part of the deciding step (a cooperative schedule is fully happens-before ordered). Determinism holds at GOMAXPROCS=1, which workers and replays pin; at 4/16 goroutines woken by channel operations run in parallel between park points.",
+            "DESIGN.md §6 C17"),
 }
 
 PENDING = {}  # id -> reason (not claimed yet)
